@@ -608,6 +608,11 @@ class Exec:
             return mk("cmp", c[op], ty, a, b)
         base = op.replace("WithOverflow", "").replace("Unchecked", "")
         with_ovf = op.endswith("WithOverflow")
+        if base in ("Shl", "Shr") and is_const(b) and b[1] in INT_BITS:
+            # the shift amount's own integer type is irrelevant to the result: canonical u32
+            sv = to_signed(b[1], cint(b))
+            if 0 <= sv < 256:
+                b = mk_const("u32", sv)
         res = None; ovf = None
         if is_const(a) and is_const(b) and ty in INT_BITS:
             x, y = to_signed(ty, cint(a)), to_signed(ty, cint(b))
